@@ -13,7 +13,7 @@ import (
 func init() {
 	register(&Spec{
 		ID: "C05",
-		Explanation: "Decides four structural conditions without which a crashing input exists: R1 no nil handler can be selected (every node with handlers has the 405 and OPTIONS entries: a installs, b reserved keys not deletable by name, c automatic entries deleted only together when nothing else is left); R2 first-byte index coherence (= C03.R1/R2, the children[indexes[b]] access); R3 no explicit panic is reachable from serving/parsing entry points, registration panics carry an error value; R4 guard pairing for data-derived indexing on the serving path; R5 CheckSyntax, URL and registration share one parser. " +
+		Explanation: "Decides four structural conditions without which a crashing input exists: R1 no nil handler can be selected (every node with handlers has the 405 and OPTIONS entries: a installs, b reserved keys not deletable by name, c automatic entries deleted only together when nothing else is left); R2 first-byte index coherence (= C03.R1/R2, the children[indexes[b]] access); R3 no explicit panic is reachable from serving/parsing entry points, registration panics carry an error value; R4 guard pairing for data-derived indexing on the serving path; R5 CheckSyntax, URL and registration share one parser; R6 the CORS procedure (which dereferences the matched node) runs only on the served edge, where the node is non-nil. " +
 			"Not decided: absence of runtime faults for arbitrary bytes in general (no bounds prover in reach; the compiler's prove pass leaves about 100 bounds checks unproven).",
 		Assumptions: commonAssumptions,
 		Run: func(c *Ctx) {
@@ -25,6 +25,7 @@ func init() {
 			rulePanics(c, "R3")
 			ruleGuardedIndexing(c, "R4")
 			ruleOneParser(c, "R5")
+			ruleCorsOnlyServed(c, "R6")
 		},
 	})
 }
